@@ -240,6 +240,19 @@ for _c in OBS_CLASSES + ST_CLASSES + [EncTargetDone]:
     _OWN_NAMES.add(_c.__name__)
 
 
+def _aba_register(cls):
+    """round 6, the registry as a history: ANOTHER class of the same name is registered (a project's own variant that
+    never reports anything), then the original is registered again - the name belongs to the class registered last"""
+    decoy = type(cls.__name__, (cls,), {"get_done": lambda self, agent, **kw: False,
+                                        "get_all_done": lambda self, **kw: False,
+                                        "get_obs": lambda self, agent, **kw: {},
+                                        "reset": lambda self, **kw: None})
+    try:
+        REG.register(decoy)
+    finally:
+        REG.register(cls)
+
+
 class StubSmartSim(SmartGridWorldSimulation):
     """the minimal subclass of the documentation: an actor, finalize, and a `step` that accrues"""
 
@@ -314,6 +327,8 @@ class SmartSession:
                     out.add(cls)
                 if by in ("name", "both"):
                     out.add(cls.__name__)
+                    if len(repr(cfg)) % 3 == 0:
+                        _aba_register(cls)
             return out
 
         done_cls = lambda k: EncTargetDone if (k == "tenc" and adapter) else CLASS_OF[k]  # noqa: E731
